@@ -100,6 +100,18 @@ TWINS = [
     ("schema.list([..., schema.dict({'a': schema.int, 'b': schema.int})])", "[{'a': 1}, {'a': 1, 'b': 2}, {'a': 3}]"),
     ("schema.list([schema.dict({'a': schema.int, 'b': schema.int}), ...])", "[{'a': 3}, {'a': 1, 'b': 2}, {'a': 1}]"),
     ("schema.list([schema.list([schema.int, ...]), ...])", "[[], [1]]"), ("schema.list([..., schema.list([schema.int, ...])])", "[[1], []]"),
+    # a window never runs past the end of the value: "no matching window" is a SubstitutionError, not a shorter window
+    ("schema.list([..., schema.dict({'id': schema.int, ...: ...}), schema.dict({'ok': schema.bool}), ...])", "[{'id': 1, 'src': 'a'}, {}]"),
+    ("schema.list([..., schema.dict({'id': schema.int, ...: ...}), schema.dict({'ok': schema.bool}), ...])", "[{}, {'id': 1, 'src': 'a'}]"),
+    ("schema.list([..., schema.int, schema.str, ...])", "['a', 1]"), ("schema.list([..., schema.int, schema.str, schema.none, ...])", "[1, 'a']"),
+    ("schema.list([..., schema.dict({'a': schema.int, ...: ...}), schema.int, ...])", "[1, {'a': 1, 'zz': 2}]"),
+    # the empty list meeting a length refinement that is kept: the result is still generated from
+    ("schema.list.len(0)", "[]"), ("schema.list.len(0, 3)", "[]"), ("schema.list(schema.int).len(0, 2)", "[]"), ("schema.list([...]).len(0)", "[]"),
+    ("schema.list(schema.int).len(0, ...)", "[]"), ("schema.dict({'t': schema.list(schema.str).len(0, 5)})", "{'t': []}"), ("schema.list([]).len(0)", "[]"),
+    ("schema.any(schema.list.len(0), schema.none)", "[]"), ("schema.list(schema.list(schema.int).len(0, 1))", "[[], [1], []]"),
+    # several values after (before) the declared elements keep their order
+    ("schema.list([schema.int, ...])", "[1, 2, 3, 4]"), ("schema.list([..., schema.int])", "[1, 2, 3, 4]"), ("schema.list([..., schema.int(3), ...])", "['a', 'b', 3, 'c', 'd']"),
+    ("schema.list([schema.str, schema.int, ...])", "['a', 1, [1], [2], [3]]"), ("schema.dict({'l': schema.list([schema.none, ...])})", "{'l': [None, 'x', 'y', 'z']}"),
 ]
 
 
